@@ -1,4 +1,4 @@
-(* C12 — what the code as it is (cur_code) violates: witnesses evaluated by vm_compute (each one is
+(* C12 — what the code as it is (old_code) violates: witnesses evaluated by vm_compute (each one is
    replayed on the real engine by the scripted cases of harness/c12/gen.go), the strongest statements
    that remain true for it, and the remaining theorems (primary keys, failed statements, INSERT). *)
 From V Require Import SQLCons.Model SQLCons.Spec SQLCons.Basics SQLCons.Steps SQLCons.Frame SQLCons.RowInv SQLCons.Unique.
@@ -9,19 +9,19 @@ Open Scope N_scope.
 Lemma dup_not_unique c : dup_rows c -> ~ unique_ok c.
 Proof. intros (Hu & k1 & r1 & k2 & r2 & H1 & H2 & Hv & Hn) U. apply Hn. eapply U; eauto. Qed.
 
-Lemma wit_unique_dup : dup_rows (s_c (run g_plain cur_code wit_unique)).
+Lemma wit_unique_dup : dup_rows (s_c (run g_plain old_code wit_unique)).
 Proof.
   split; [vm_compute; reflexivity|].
   exists 2%Z, (mkRow (VInt 10) VNull), 3%Z, (mkRow (VInt 10) VNull). vm_compute.
   repeat split; auto; try discriminate.
 Qed.
-Lemma wit_unique_conc_dup : dup_rows (s_c (run g_plain cur_code wit_unique_conc)).
+Lemma wit_unique_conc_dup : dup_rows (s_c (run g_plain old_code wit_unique_conc)).
 Proof.
   split; [vm_compute; reflexivity|].
   exists 2%Z, (mkRow (VInt 10) VNull), 3%Z, (mkRow (VInt 10) VNull). vm_compute.
   repeat split; auto; try discriminate.
 Qed.
-Lemma wit_create_dup : dup_rows (s_c (run g_plain cur_code wit_create)).
+Lemma wit_create_dup : dup_rows (s_c (run g_plain old_code wit_create)).
 Proof.
   split; [vm_compute; reflexivity|].
   exists 2%Z, (mkRow (VInt 10) VNull), 3%Z, (mkRow (VInt 10) VNull). vm_compute.
@@ -29,13 +29,13 @@ Proof.
 Qed.
 
 Lemma unique_refuted :
-  exists g evs, ~ unique_ok (s_c (run g cur_code evs)).
+  exists g evs, ~ unique_ok (s_c (run g old_code evs)).
 Proof. exists g_plain, wit_unique. apply dup_not_unique, wit_unique_dup. Qed.
 Lemma unique_conc_refuted :
-  exists g evs, ~ unique_ok (s_c (run g cur_code evs)).
+  exists g evs, ~ unique_ok (s_c (run g old_code evs)).
 Proof. exists g_plain, wit_unique_conc. apply dup_not_unique, wit_unique_conc_dup. Qed.
 Lemma unique_create_refuted :
-  exists g evs, ~ unique_ok (s_c (run g cur_code evs)).
+  exists g evs, ~ unique_ok (s_c (run g old_code evs)).
 Proof. exists g_plain, wit_create. apply dup_not_unique, wit_create_dup. Qed.
 (* the repaired check rejects the last INSERT of the witness (the model of the repaired code) *)
 Example wit_unique_fixed :
@@ -43,13 +43,13 @@ Example wit_unique_fixed :
 Proof. vm_compute. reflexivity. Qed.
 
 Lemma not_null_refuted :
-  exists g evs k r, k_notnull g = true /\ In (k, r) (live_rows (s_c (run g cur_code evs))) /\ r_v r = VNull.
+  exists g evs k r, k_notnull g = true /\ In (k, r) (live_rows (s_c (run g old_code evs))) /\ r_v r = VNull.
 Proof. exists g_nn, wit_nn_update, 1%Z, (mkRow VNull VNull). vm_compute. auto. Qed.
 Lemma not_null_conflict_refuted :
-  exists g evs k r, k_notnull g = true /\ In (k, r) (live_rows (s_c (run g cur_code evs))) /\ r_v r = VNull.
+  exists g evs k r, k_notnull g = true /\ In (k, r) (live_rows (s_c (run g old_code evs))) /\ r_v r = VNull.
 Proof. exists g_nn, wit_nn_conflict, 1%Z, (mkRow VNull VNull). vm_compute. auto. Qed.
 Lemma check_refuted :
-  exists g evs k r, In (k, r) (live_rows (s_c (run g cur_code evs))) /\ check_ok g (r_v r) = false.
+  exists g evs k r, In (k, r) (live_rows (s_c (run g old_code evs))) /\ check_ok g (r_v r) = false.
 Proof. exists g_ck, wit_ck_conflict, 1%Z, (mkRow (VInt (-5)) VNull). vm_compute. auto. Qed.
 
 (* ---------- well-formed committed states, primary keys ---------- *)
@@ -98,12 +98,12 @@ Qed.
 
 (* ---------- uniqueness for the code as it is: where the first-key lookup is not fooled ---------- *)
 Lemma unique_partial g evs :
-  s_c (run g cur_code evs) = s_c (run g fix_unique_only evs) -> unique_ok (s_c (run g cur_code evs)).
+  s_c (run g old_code evs) = s_c (run g fix_unique_only evs) -> unique_ok (s_c (run g old_code evs)).
 Proof. intros ->. apply unique_fixed. reflexivity. Qed.
 (* the premise is satisfiable (and says something): a history with updates and deletes *)
 Example unique_partial_premise :
   let evs := [(0, ADdl true); (0, ins1 1 10); (0, ins1 2 20); (0, AAuto [SUpd (WId 2) true (VInt 30)]);
               (0, ins1 3 20); (0, ins1 4 30); (0, AAuto [SDel (WId 1)]); (0, ins1 5 10)] in
-  s_c (run g_plain cur_code evs) = s_c (run g_plain fix_unique_only evs) /\
-  length (live_rows (s_c (run g_plain cur_code evs))) = 3%nat.
+  s_c (run g_plain old_code evs) = s_c (run g_plain fix_unique_only evs) /\
+  length (live_rows (s_c (run g_plain old_code evs))) = 3%nat.
 Proof. vm_compute. split; reflexivity. Qed.
